@@ -139,11 +139,104 @@ theorem numberOf_getElem (bs : List (BlockId × Diff)) (hnd : (bs.map (·.1)).No
       simp only [numberOf, hne, if_false]
       exact ih hnd.2 hk'
 
+/-! ### the hash index (`BlockHeaderNumbersByHash`) -/
+
+theorem store_idx {σ : Type} (be : Backend σ) (nd nd' : Node σ) (id : BlockId) (d : Diff)
+    (h : nd.store be id d = .ok nd') : nd'.hashIdx = bset nd.hashIdx id (some nd.blocks.length) := by
+  unfold Node.store at h
+  split at h
+  · cases h
+  · split at h
+    · cases h
+    · cases h; rfl
+
+theorem revert_idx {σ : Type} (be : Backend σ) (nd nd' : Node σ) (h : nd.revert be = .ok nd') :
+    ∃ id d, nd.blocks = (id, d) :: nd'.blocks ∧ nd'.hashIdx = bset nd.hashIdx id none := by
+  unfold Node.revert at h
+  split at h
+  · cases h
+  · next id d rest hb =>
+    split at h
+    · cases h
+    · split at h
+      · cases h
+      · split at h
+        · cases h
+        · cases h; exact ⟨id, d, hb, rfl⟩
+
+/-- block hashes are not reused: every stored block's hash differs from the hashes of the blocks
+below it (collision-freeness of the block hash, an input assumption) -/
+def OpsFresh : List Op → List (BlockId × Diff) → Prop
+  | [], _ => True
+  | .store id d :: rest, bs => id ∉ bs.map (·.1) ∧ OpsFresh rest ((id, d) :: bs)
+  | .revert :: rest, bs => OpsFresh rest bs.tail
+
+/-- the hash index agrees with the list of stored blocks, whose hashes are distinct -/
+structure IdxInv {σ : Type} (nd : Node σ) : Prop where
+  idx : ∀ h, bget nd.hashIdx h = numberOf nd.blocks h
+  nodup : (nd.blocks.map (·.1)).Nodup
+
+theorem idxInv_init {σ : Type} (be : Backend σ) : IdxInv (Node.init be) :=
+  ⟨fun _ => rfl, List.nodup_nil⟩
+
+theorem run_idxInv {σ : Type} (be : Backend σ) (ops : List Op) (nd nd' : Node σ) (hI : IdxInv nd)
+    (hf : OpsFresh ops nd.blocks) (h : run be nd ops = some nd') : IdxInv nd' := by
+  induction ops generalizing nd with
+  | nil => simp [run] at h; subst h; exact hI
+  | cons op rest ih =>
+    unfold run at h
+    split at h
+    · next n1 hstep =>
+      cases op with
+      | store id d =>
+        obtain ⟨hb, _⟩ := store_blocks be nd n1 id d hstep
+        have hx := store_idx be nd n1 id d hstep
+        obtain ⟨hfr, hf'⟩ := hf
+        apply ih n1 _ (by rw [hb]; exact hf') h
+        refine ⟨?_, ?_⟩
+        · intro h'
+          rw [hx, hb, bget_bset]
+          by_cases e : h' = id
+          · subst e; simp [numberOf]
+          · have e' : ¬ id = h' := fun x => e x.symm
+            simp [numberOf, e, e', hI.idx h']
+        · rw [hb]; simp only [List.map_cons, List.nodup_cons]; exact ⟨hfr, hI.nodup⟩
+      | revert =>
+        obtain ⟨id, d, hb, hx⟩ := revert_idx be nd n1 hstep
+        have hf' : OpsFresh rest n1.blocks := by
+          have : OpsFresh rest nd.blocks.tail := hf
+          simpa [hb] using this
+        apply ih n1 _ hf' h
+        have hnd := hI.nodup
+        rw [hb] at hnd
+        simp only [List.map_cons, List.nodup_cons] at hnd
+        refine ⟨?_, hnd.2⟩
+        intro h'
+        rw [hx, bget_bset]
+        by_cases e : h' = id
+        · subst e; simp [(numberOf_none_iff n1.blocks h').mpr hnd.1]
+        · have e' : ¬ id = h' := fun x => e x.symm
+          have := hI.idx h'
+          rw [hb] at this
+          simpa [numberOf, e, e'] using this
+    · cases h
+
+theorem idAt_lt {σ : Type} (nd : Node σ) (k : Nat) (hk : k < nd.blocks.length) :
+    nd.idAt k = some (nd.blocks[nd.blocks.length - 1 - k]'(by omega)).1 := by
+  unfold Node.idAt
+  rw [List.getElem?_eq_getElem (by omega)]
+  rfl
+
+/-- a retained block number has a view -/
+theorem resolve_num {σ : Type} (be : Backend σ) (nd : Node σ) (hI : IdxInv nd) (k : Nat)
+    (hk : k < nd.blocks.length) : nd.resolve be (.num k) = some (some k) := by
+  simp only [Node.resolve, hk, if_true, idAt_lt nd k hk, hI.idx,
+    numberOf_getElem nd.blocks hI.nodup k hk, Option.isSome_some]
+
 /-- a view by hash is the view by the number the hash resolves to; an unknown hash has no view -/
-theorem read_by_hash {σ : Type} (be : Backend σ) (nd : Node σ) (h : BlockId) (q : Query) :
-    nd.read be (.hash h) q = ocases (numberOf nd.blocks h) none (fun k => nd.read be (.num k) q) := by
-  unfold Node.read
-  simp only [Node.resolve]
+theorem resolve_hash {σ : Type} (be : Backend σ) (nd : Node σ) (hI : IdxInv nd) (h : BlockId) :
+    nd.resolve be (.hash h) = (numberOf nd.blocks h).map some := by
+  simp only [Node.resolve, hI.idx]
   by_cases e : numberOf nd.blocks h = none
   · simp [e]
   · obtain ⟨k, hk⟩ := Option.ne_none_iff_exists'.mp e
